@@ -18,11 +18,11 @@ PROPS = {
         "runs": [
             {"pkg": "./c13", "harness": "Harness_builtin", "setup": "SetupSeeds",
              "params": {"quick": {"depth": 1, "width": 1, "strlen": 1, "maxargc": 3}, "thorough": {"depth": 1, "width": 2, "strlen": 1, "maxargc": 3}},
-             "wall": {"thorough": "40m"}},
+             "wall": {"thorough": "10m"}},
             {"pkg": "./c13", "harness": "Harness_seeded", "setup": "SetupSeeds", "params": {"quick": {}, "thorough": {}}},
             {"pkg": "./c13", "harness": "Harness_twomaps", "setup": "SetupSeeds", "params": {"quick": {}, "thorough": {}}},
             {"pkg": "./c13", "harness": "Harness_compose", "setup": "SetupSeeds",
-             "params": {"quick": {"depth": 0, "width": 1}, "thorough": {"depth": 1, "width": 1}}, "wall": {"thorough": "40m"}},
+             "params": {"quick": {"depth": 0, "width": 1}, "thorough": {"depth": 1, "width": 1}}, "wall": {"thorough": "10m"}},
         ],
     },
     "C02": {
@@ -31,19 +31,19 @@ PROPS = {
         "assumptions": ["append growth policy is the host runtime's for 16-byte elements (identical element size to types.MalType)"],
         "runs": [
             {"pkg": "./c02", "harness": "Harness_history", "setup": "Setup",
-             "params": {"quick": {"steps": 2, "ophi": 17, "seedmask": 1043}, "thorough": {"steps": 2}}, "wall": {"thorough": "40m"}},
+             "params": {"quick": {"steps": 2, "ophi": 17, "seedmask": 1043}, "thorough": {"steps": 2}}, "wall": {"thorough": "10m"}},
             {"pkg": "./c02", "harness": "Harness_maps", "setup": "Setup",
-             "params": {"quick": {"steps": 2, "mapops": 1, "seedmask": 1004}, "thorough": {"steps": 3, "mapops": 1, "seedmask": 1004}}, "wall": {"thorough": "40m"}},
+             "params": {"quick": {"steps": 2, "mapops": 1, "seedmask": 1004}, "thorough": {"steps": 3, "mapops": 1, "seedmask": 1004}}, "wall": {"thorough": "10m"}},
         ],
     },
     "C05": {
         "technique": "bounded symbolic execution of READ / READWithPreamble / read-string / PRINT incl. the whole jig/scanner on symbolic bytes over a 36-symbol alphabet; reachability of an escaping panic or of the step budget; SMT (z3) decides assertions, finite-domain evaluation (cross-checked against z3) decides branch feasibility",
         "outside": "texts longer than N bytes (templates extend the reach: constructor brackets, strings, raw strings, collections, preamble lines with symbolic holes); bytes outside the alphabet Sigma; strconv.ParseFloat is a model (arbitrary result); regexp is modelled by a backtracking matcher",
         "runs": [
-            {"pkg": "./c05", "harness": "Harness_read", "setup": "Setup", "hang": True, "budget": 400000, "native_timeout": 20, "params": {"quick": {"n": 3}, "thorough": {"n": 4}}, "wall": {"thorough": "40m"}},
+            {"pkg": "./c05", "harness": "Harness_read", "setup": "Setup", "hang": True, "budget": 400000, "native_timeout": 20, "params": {"quick": {"n": 3}, "thorough": {"n": 4}}, "wall": {"thorough": "10m"}},
             {"pkg": "./c05", "harness": "Harness_readstring", "setup": "Setup", "hang": True, "budget": 400000, "native_timeout": 20, "params": {"quick": {"n": 2}, "thorough": {"n": 3}}},
-            {"pkg": "./c05", "harness": "Harness_focus", "setup": "Setup", "hang": True, "budget": 400000, "native_timeout": 20, "params": {"quick": {"k": 2}, "thorough": {"k": 3}}, "wall": {"thorough": "40m"}},
-            {"pkg": "./c05", "harness": "Harness_preamble", "setup": "Setup", "hang": True, "budget": 400000, "native_timeout": 20, "params": {"quick": {"n": 2, "v": 1, "c": 1}, "thorough": {"n": 3, "v": 2, "c": 1}}, "wall": {"thorough": "40m"}},
+            {"pkg": "./c05", "harness": "Harness_focus", "setup": "Setup", "hang": True, "budget": 400000, "native_timeout": 20, "params": {"quick": {"k": 2}, "thorough": {"k": 3}}, "wall": {"thorough": "10m"}},
+            {"pkg": "./c05", "harness": "Harness_preamble", "setup": "Setup", "hang": True, "budget": 400000, "native_timeout": 20, "params": {"quick": {"n": 2, "v": 1, "c": 1}, "thorough": {"n": 3, "v": 2, "c": 1}}, "wall": {"thorough": "10m"}},
         ],
     },
     "C06": {
@@ -51,11 +51,11 @@ PROPS = {
         "outside": "floats; symbolic integer magnitudes (integers range over a boundary set: decimal conversion of a symbolic 64-bit integer is a divide-by-constant kernel); invalid UTF-8 in values; Go constructor syntax; values deeper/wider than the bound; NUL inside strings",
         "runs": [
             {"pkg": "./c06", "harness": "Harness_value", "maporder": True,
-             "params": {"quick": {"depth": 1, "width": 1, "strlen": 2}, "thorough": {"depth": 1, "width": 2, "strlen": 3}}, "wall": {"thorough": "40m"}},
-            {"pkg": "./c06", "harness": "Harness_jsonish", "params": {"quick": {"strlen": 1}, "thorough": {"strlen": 3}}, "wall": {"thorough": "40m"}},
-            {"pkg": "./c06", "harness": "Harness_text", "params": {"quick": {"n": 3}, "thorough": {"n": 4}}, "wall": {"thorough": "40m"}},
-            {"pkg": "./c06", "harness": "Harness_text_quoted", "params": {"quick": {"n": 3, "quoted": 1}, "thorough": {"n": 4, "quoted": 1}}, "wall": {"thorough": "40m"}},
-            {"pkg": "./c06", "harness": "Harness_text_raw", "params": {"quick": {"n": 3, "quoted": 2}, "thorough": {"n": 4, "quoted": 2}}, "wall": {"thorough": "40m"}},
+             "params": {"quick": {"depth": 1, "width": 1, "strlen": 2}, "thorough": {"depth": 1, "width": 2, "strlen": 3}}, "wall": {"thorough": "10m"}},
+            {"pkg": "./c06", "harness": "Harness_jsonish", "params": {"quick": {"strlen": 1}, "thorough": {"strlen": 3}}, "wall": {"thorough": "10m"}},
+            {"pkg": "./c06", "harness": "Harness_text", "params": {"quick": {"n": 3}, "thorough": {"n": 4}}, "wall": {"thorough": "10m"}},
+            {"pkg": "./c06", "harness": "Harness_text_quoted", "params": {"quick": {"n": 3, "quoted": 1}, "thorough": {"n": 4, "quoted": 1}}, "wall": {"thorough": "10m"}},
+            {"pkg": "./c06", "harness": "Harness_text_raw", "params": {"quick": {"n": 3, "quoted": 2}, "thorough": {"n": 4, "quoted": 2}}, "wall": {"thorough": "10m"}},
         ],
     },
     "C16": {
@@ -63,7 +63,7 @@ PROPS = {
         "outside": "the Go-constructor brackets, unterminated strings (the statement is about brackets), cuts inside a token, the ^ reader macro, the interactive Execute loop (terminal I/O); structures deeper/wider than the bound",
         "runs": [
             {"pkg": "./c16", "harness": "Harness_cut", "overlay": {"/repo/repl/zz_verif_export.go": "harness/overlays/repl_export.go.txt"},
-             "params": {"quick": {"depth": 2, "width": 1, "strlen": 1}, "thorough": {"depth": 2, "width": 2, "strlen": 2}}, "wall": {"thorough": "40m"}},
+             "params": {"quick": {"depth": 2, "width": 1, "strlen": 1}, "thorough": {"depth": 2, "width": 2, "strlen": 2}}, "wall": {"thorough": "10m"}},
         ],
     },
     "C01": {
@@ -71,9 +71,9 @@ PROPS = {
         "outside": "programs deeper/wider than the bound (skeleton families with symbolic holes and integers extend the reach: recursion with a symbolic counter <= 3, closures, shadowing, def inside fn, & rest, late def); host-stack exhaustion; builtins outside the vocabulary (+ - < = list count nil? trace!); = applied to functions (undefined); special-form names rebound as variables",
         "runs": [
             {"pkg": "./c01", "harness": "Harness_programs", "setup": "Setup",
-             "params": {"quick": {"depth": 1, "width": 2}, "thorough": {"depth": 2, "width": 1}}, "wall": {"thorough": "40m"}},
+             "params": {"quick": {"depth": 1, "width": 2}, "thorough": {"depth": 2, "width": 1}}, "wall": {"thorough": "10m"}},
             {"pkg": "./c01", "harness": "Harness_skeletons", "setup": "Setup",
-             "params": {"quick": {"holedepth": 1}, "thorough": {"holedepth": 1}}, "wall": {"thorough": "40m"}},
+             "params": {"quick": {"holedepth": 1}, "thorough": {"holedepth": 1}}, "wall": {"thorough": "10m"}},
         ],
     },
     "C03": {
@@ -81,11 +81,11 @@ PROPS = {
         "outside": "finally bodies that throw; timeouts inside try (C07); positions (C17); nesting/forms beyond the bound",
         "runs": [
             {"pkg": "./c03", "harness": "Harness_try", "setup": "Setup",
-             "params": {"quick": {"nest": 0, "forms": 1}, "thorough": {"nest": 0, "forms": 2}}, "wall": {"thorough": "40m"}},
+             "params": {"quick": {"nest": 0, "forms": 1}, "thorough": {"nest": 0, "forms": 2}}, "wall": {"thorough": "10m"}},
             {"pkg": "./c03", "harness": "Harness_try_tail", "setup": "Setup",
-             "params": {"quick": {"small": 1}, "thorough": {}}, "wall": {"thorough": "40m"}},
+             "params": {"quick": {"small": 1}, "thorough": {}}, "wall": {"thorough": "10m"}},
             {"pkg": "./c03", "harness": "Harness_try_small", "setup": "Setup",
-             "params": {"quick": {"nest": 0, "forms": 2, "small": 1}, "thorough": {"nest": 1, "forms": 2, "small": 1}}, "wall": {"thorough": "40m"}},
+             "params": {"quick": {"nest": 0, "forms": 2, "small": 1}, "thorough": {"nest": 1, "forms": 2, "small": 1}}, "wall": {"thorough": "10m"}},
         ],
     },
     "C04": {
@@ -93,15 +93,15 @@ PROPS = {
         "outside": "stack exhaustion by deep recursion, cyclic values, builtins whose body needs an unmodelled library (json-encode json-decode hash-map-decode base64 unbase64 uuid spew version time-ms time-ns sleep slurp read-line str2binary binary2str split), forms deeper/wider than the bound, symbolic integer magnitudes (integers range over {0,1,-1,7})",
         "runs": [
             {"pkg": "./c04", "harness": "Harness_form", "setup": "Setup", "budget": 300000,
-             "params": {"quick": {"depth": 0, "maxargs": 1}, "thorough": {"depth": 0, "maxargs": 2}}, "wall": {"thorough": "40m"}},
+             "params": {"quick": {"depth": 0, "maxargs": 1}, "thorough": {"depth": 0, "maxargs": 2}}, "wall": {"thorough": "10m"}},
             {"pkg": "./c04", "harness": "Harness_quasi", "setup": "Setup", "budget": 300000,
-             "params": {"quick": {"depth": 1}, "thorough": {"depth": 2}}, "wall": {"thorough": "40m"}},
+             "params": {"quick": {"depth": 1}, "thorough": {"depth": 2}}, "wall": {"thorough": "10m"}},
             {"pkg": "./c04", "harness": "Harness_call", "setup": "Setup", "budget": 300000,
              "params": {"quick": {}, "thorough": {}}},
             {"pkg": "./c04", "harness": "Harness_concurrent", "setup": "Setup", "budget": 300000, "preemptions": 1,
              "params": {"quick": {}, "thorough": {}}},
             {"pkg": "./c04", "harness": "Harness_cancelled", "setup": "Setup", "budget": 300000,
-             "params": {"quick": {"maxargs": 1}, "thorough": {"maxargs": 2}}, "wall": {"thorough": "40m"}},
+             "params": {"quick": {"maxargs": 1}, "thorough": {"maxargs": 2}}, "wall": {"thorough": "10m"}},
         ],
     },
     "C12": {
@@ -109,9 +109,9 @@ PROPS = {
         "outside": "unquote inside map literals, a splice at the top of a template, nested quasiquote, operand-less (unquote) (C04's), templates/macros beyond the bound; the library macros time, defprotocol, future",
         "runs": [
             {"pkg": "./c12", "harness": "Harness_quasi", "setup": "Setup",
-             "params": {"quick": {"depth": 1, "width": 2}, "thorough": {"depth": 2, "width": 2}}, "wall": {"thorough": "40m"}},
+             "params": {"quick": {"depth": 1, "width": 2}, "thorough": {"depth": 2, "width": 2}}, "wall": {"thorough": "10m"}},
             {"pkg": "./c12", "harness": "Harness_macro", "setup": "Setup", "params": {"quick": {}, "thorough": {}}},
-            {"pkg": "./c12", "harness": "Harness_libmacros", "setup": "Setup", "params": {"quick": {"maxops": 3}, "thorough": {"maxops": 5}}, "wall": {"thorough": "40m"}},
+            {"pkg": "./c12", "harness": "Harness_libmacros", "setup": "Setup", "params": {"quick": {"maxops": 3}, "thorough": {"maxops": 5}}, "wall": {"thorough": "10m"}},
         ],
     },
     "C20": {
@@ -127,9 +127,9 @@ PROPS = {
         "outside": "placeholder names beyond the three used; values deeper than the bound; symbols whose name starts with $ (not producible by READ); source texts other than the eight templates",
         "runs": [
             {"pkg": "./c15", "harness": "Harness_transport", "maporder": True,
-             "params": {"quick": {"depth": 0, "strlen": 1}, "thorough": {"depth": 1, "strlen": 2}}, "wall": {"thorough": "40m"}},
+             "params": {"quick": {"depth": 0, "strlen": 1}, "thorough": {"depth": 1, "strlen": 2}}, "wall": {"thorough": "10m"}},
             {"pkg": "./c15", "harness": "Harness_strings", "maporder": True,
-             "params": {"quick": {"depth": 0, "strlen": 3, "stringsonly": 1, "templates": 1}, "thorough": {"depth": 0, "strlen": 3, "stringsonly": 1, "templates": 2}}, "wall": {"quick": "100s", "thorough": "40m"}},
+             "params": {"quick": {"depth": 0, "strlen": 3, "stringsonly": 1, "templates": 1}, "thorough": {"depth": 0, "strlen": 3, "stringsonly": 1, "templates": 2}}, "wall": {"quick": "100s", "thorough": "10m"}},
         ],
     },
     "C18": {
@@ -137,7 +137,7 @@ PROPS = {
         "outside": "the interactive debugger package (keyboard/terminal I/O); unknown command values (the code panics by design); programs beyond the bounds; the exact list of forms handed to the callback is not compared with the reference evaluation order (only that every consultation carries a non-nil scope)",
         "runs": [
             {"pkg": "./c18", "harness": "Harness_stepper", "setup": "Setup",
-             "params": {"quick": {"depth": 1, "width": 1, "cmds": 2, "small": 1, "forms": 1}, "thorough": {"depth": 1, "width": 1, "cmds": 4, "small": 1, "forms": 2}}, "wall": {"thorough": "40m"}},
+             "params": {"quick": {"depth": 1, "width": 1, "cmds": 2, "small": 1, "forms": 1}, "thorough": {"depth": 1, "width": 1, "cmds": 4, "small": 1, "forms": 2}}, "wall": {"thorough": "10m"}},
         ],
     },
     "C08": {
@@ -145,7 +145,7 @@ PROPS = {
         "outside": "debugger mode (recursion is deliberate); try bodies (not tail positions); loop shapes with more nested wrappers or longer function cycles than the bound; host frames are counted as SSA activations (inlining aside)",
         "runs": [
             {"pkg": "./c08", "harness": "Harness_tail", "setup": "Setup",
-             "params": {"quick": {"wrappers": 2, "cycle": 2}, "thorough": {"wrappers": 3, "cycle": 3}}, "wall": {"thorough": "40m"}},
+             "params": {"quick": {"wrappers": 2, "cycle": 2}, "thorough": {"wrappers": 3, "cycle": 3}}, "wall": {"thorough": "10m"}},
         ],
     },
     "C19": {
@@ -153,7 +153,7 @@ PROPS = {
         "outside": "real file-system I/O, the command-line front end; programs other than the seven form skeletons; symbolic layout only at every stride-th token gap; L-notation is represented by the position-free AST",
         "runs": [
             {"pkg": "./c19", "harness": "Harness_routes", "setup": "Setup",
-             "params": {"quick": {"fill": 1, "forms": 1, "stride": 3}, "thorough": {"fill": 1, "forms": 2, "stride": 4}}, "wall": {"quick": "150s", "thorough": "40m"}},
+             "params": {"quick": {"fill": 1, "forms": 1, "stride": 3}, "thorough": {"fill": 1, "forms": 2, "stride": 4}}, "wall": {"quick": "150s", "thorough": "10m"}},
         ],
     },
     "C17": {
@@ -161,7 +161,7 @@ PROPS = {
         "outside": "columns; errors raised in other threads; faults reached through map/apply/swap! (re-positioned at the calling form); faults other than the four planted ones; layout beyond the bound",
         "runs": [
             {"pkg": "./c17", "harness": "Harness_position", "setup": "Setup",
-             "params": {"quick": {"fill": 1, "fill_u0": 0, "fill_u3": 0, "okforms": 2}, "thorough": {"fill": 1}}, "wall": {"thorough": "40m"}},
+             "params": {"quick": {"fill": 1, "fill_u0": 0, "fill_u3": 0, "okforms": 2}, "thorough": {"fill": 1}}, "wall": {"thorough": "10m"}},
         ],
     },
     "C09": {
@@ -170,9 +170,9 @@ PROPS = {
         "level_note": "trusted: go/ssa, the symgo interpreter, its RWMutex/goroutine/channel models and scheduler (sequentially consistent interleavings at synchronisation operations; DRF-SC), z3; the Go memory model beyond SC is not modelled",
         "runs": [
             {"pkg": "./c09", "harness": "Harness_atom", "setup": "Setup", "race": True, "native_timeout": 120, "preemptions": 2,
-             "params": {"quick": {"threads": 2, "ops": 1, "kinds": 7}, "thorough": {"threads": 2, "ops": 2, "kinds": 7}}, "wall": {"thorough": "40m"}},
+             "params": {"quick": {"threads": 2, "ops": 1, "kinds": 7}, "thorough": {"threads": 2, "ops": 2, "kinds": 7}}, "wall": {"thorough": "10m"}},
             {"pkg": "./c09", "harness": "Harness_atom2", "setup": "Setup", "race": True, "native_timeout": 120, "preemptions": 2,
-             "params": {"quick": {"threads": 2, "ops": 2, "kinds": 3}, "thorough": {"threads": 3, "ops": 1, "kinds": 7}}, "wall": {"quick": "150s", "thorough": "40m"}},
+             "params": {"quick": {"threads": 2, "ops": 2, "kinds": 3}, "thorough": {"threads": 3, "ops": 1, "kinds": 7}}, "wall": {"quick": "150s", "thorough": "10m"}},
         ],
     },
     "C10": {
@@ -182,10 +182,10 @@ PROPS = {
         "runs": [
             {"pkg": "./c10", "harness": "Harness_future", "setup": "Setup", "race": True, "native_timeout": 120,
              "preemptions": {"quick": 1, "thorough": 2},
-             "params": {"quick": {"threads": 2, "ops": 1}, "thorough": {"threads": 2, "ops": 1}}, "wall": {"thorough": "40m"}},
+             "params": {"quick": {"threads": 2, "ops": 1}, "thorough": {"threads": 2, "ops": 1}}, "wall": {"thorough": "10m"}},
             {"pkg": "./c10", "harness": "Harness_future2", "setup": "Setup", "race": True, "native_timeout": 120,
              "preemptions": {"quick": 1, "thorough": 1},
-             "params": {"quick": {"threads": 2, "ops": 2}, "thorough": {"threads": 2, "ops": 2}}, "wall": {"quick": "100s", "thorough": "40m"}},
+             "params": {"quick": {"threads": 2, "ops": 2}, "thorough": {"threads": 2, "ops": 2}}, "wall": {"quick": "100s", "thorough": "10m"}},
         ],
     },
     "C11": {
@@ -195,9 +195,9 @@ PROPS = {
         "runs": [
             {"pkg": "./c11", "harness": "Harness_pair", "setup": "Setup", "race": True, "native_timeout": 120, "threads": 6,
              "preemptions": {"quick": 1, "thorough": 1},
-             "params": {"quick": {"templates": 5}, "thorough": {"templates": 10}}, "wall": {"thorough": "40m"}},
+             "params": {"quick": {"templates": 5}, "thorough": {"templates": 10}}, "wall": {"thorough": "10m"}},
             {"pkg": "./c11", "harness": "Harness_gensym", "setup": "SetupGensym", "race": True, "native_timeout": 120, "threads": 6,
-             "preemptions": {"quick": 2, "thorough": 3}, "params": {"quick": {}, "thorough": {}}, "wall": {"quick": "150s", "thorough": "40m"}},
+             "preemptions": {"quick": 2, "thorough": 3}, "params": {"quick": {}, "thorough": {}}, "wall": {"quick": "150s", "thorough": "10m"}},
         ],
     },
     "C07": {
@@ -206,7 +206,7 @@ PROPS = {
         "level_note": "partial claim: promptness is established in logical / virtual time only; trusted: go/ssa, the symgo interpreter, its time/context/channel models and virtual clock, z3",
         "runs": [
             {"pkg": "./c07", "harness": "Harness_cancel", "setup": "Setup", "hang": True, "budget": 3000000, "native_timeout": 30, "preemptions": 1,
-             "params": {"quick": {"nest": 1, "maxk": 3}, "thorough": {"nest": 2, "maxk": 6}}, "wall": {"thorough": "40m"}},
+             "params": {"quick": {"nest": 1, "maxk": 3}, "thorough": {"nest": 2, "maxk": 6}}, "wall": {"thorough": "10m"}},
             {"pkg": "./c07", "harness": "Harness_sleep", "setup": "Setup", "hang": True, "solver": "z3-new", "native_timeout": 30,
              "params": {"quick": {}, "thorough": {}}},
         ],
